@@ -16,11 +16,10 @@ def setBalance (s : State) (a : Addr) (d : Denom) (v : Int) : State :=
 /-- `bank.SendCoins` of one coin: insufficient funds is an error; the credit is checked for
 256-bit overflow like `sdkmath.Int.Add`. Zero-amount coins are filtered by the hub before. -/
 def sendCoins (s : State) (frm to : Addr) (c : Coin) : M State := do
-  let fb := balance s frm c.denom
-  if fb < c.amount then reject "insufficient funds"
-  let s := setBalance s frm c.denom (fb - c.amount)
-  let nb ← SInt.add (balance s to c.denom) c.amount
-  pure (setBalance s to c.denom nb)
+  require (!(balance s frm c.denom < c.amount)) "insufficient funds"
+  let s1 := setBalance s frm c.denom (balance s frm c.denom - c.amount)
+  let nb ← SInt.add (balance s1 to c.denom) c.amount
+  pure (setBalance s1 to c.denom nb)
 
 /-- `SendCoinsFromModuleToAccount`: refuses blocked recipients. -/
 def sendModuleToAccount (s : State) (module to : Addr) (c : Coin) : M State :=
@@ -29,11 +28,13 @@ def sendModuleToAccount (s : State) (module to : Addr) (c : Coin) : M State :=
 def supplyOf (s : State) (d : Denom) : Int := (s.supply.get d).getD 0
 
 /-- `bank.MintCoins` into a module account. -/
+def setSupply (s : State) (d : Denom) (v : Int) : State :=
+  { s with supply := if v = 0 then s.supply.erase d else s.supply.set d v }
+
 def mintCoins (s : State) (module : Addr) (c : Coin) : M State := do
   let nb ← SInt.add (balance s module c.denom) c.amount
   let ns ← SInt.add (supplyOf s c.denom) c.amount
-  let s := setBalance s module c.denom nb
-  pure { s with supply := if ns = 0 then s.supply.erase c.denom else s.supply.set c.denom ns }
+  pure (setSupply (setBalance s module c.denom nb) c.denom ns)
 
 /-- `distribution.FundCommunityPool` of one coin (account → distribution module account). -/
 def fundCommunityPool (s : State) (frm : Addr) (c : Coin) : M State :=
